@@ -23,7 +23,14 @@ OPTION_SETS = [
 ]
 
 DENSITIES = ['-1.0', '-2.7', '0.05', '-7.85', '1.0', '-.5', '-1.00',
-             '6.0-2', '-11.35', '4.8e-2']
+             '6.0-2', '-11.35', '4.8e-2', '-1', '-0.5', '1', '5e-2']
+
+# numerically equal densities whose spellings normalize_float keeps distinct
+# (C09_normalize_float_kept_distinct): one material used at both needs two
+# compositions, one per spelling, because GEOMCOMP names use the spelling
+EQUAL_VALUE_PAIRS = [('-1', '-1.0'), ('-.5', '-0.5'), ('0.05', '5e-2'),
+                     ('1', '1.0'), ('-15', '-1.5e1'), ('-2e5', '-2e+5'),
+                     ('0.5', '.5'), ('-2.7', '-27e-1')]
 
 
 def _c(rng):
@@ -265,6 +272,15 @@ def gen_deck(rng):
         elif rng.random() < 0.012:
             cell['imp'] = {'n': -1}       # open finding
             tags.add('negative-importance')
+    plain = [c for c in dk['cells'] if c['u'] == 0 and c['mat'] != 0
+             and c.get('fill') is None and c['imp'] == {'n': 1}]
+    if len(plain) >= 2 and rng.random() < 0.3:
+        one, two = rng.sample(plain, 2)
+        pair = list(rng.choice(EQUAL_VALUE_PAIRS))
+        rng.shuffle(pair)
+        two['mat'] = one['mat']
+        one['rho'], two['rho'] = pair
+        tags.add('equal-value-densities')
     if rng.random() < 0.5:
         cell = new_cell(gen_expr(rng, lits, ids))
         cell['imp'] = {'n': 0}
